@@ -56,6 +56,7 @@ def check(rep: Report, ctx: Ctx) -> None:
     r510(rep, ctx)
     r511(rep, ctx)
     r512(rep, ctx)
+    r513(rep, ctx)
 
 
 # --------------------------------------------------------------------------
@@ -898,6 +899,37 @@ def r510(rep: Report, ctx: Ctx) -> None:
         raise AnalysisError(f"{rot.qualname}: no list rotation recognised "
                             "(idiom outside the vocabulary)")
     majority = max(set(kinds.values()), key=list(kinds.values()).count)
+    # positions into the per-path lists (attributes initialised with
+    # self.paths.index(..)) move with the rotation
+    pos_attrs = []
+    for st in ast.walk(init.node):
+        if isinstance(st, (ast.Assign, ast.AnnAssign)) and st.value is not None:
+            tgt = st.targets[0] if isinstance(st, ast.Assign) else st.target
+            a = _self_attr(tgt)
+            if a and any(isinstance(c, ast.Call) and call_name(c) == "index"
+                         and _self_attr(c.func.value) == "paths"  # type: ignore[attr-defined]
+                         for c in ast.walk(st.value)):
+                pos_attrs.append(a)
+    step = "Add" if majority == "last-to-front" else "Sub"
+    for a in sorted(set(pos_attrs)):
+        upd = [st for st in ast.walk(rot.node) if isinstance(st, ast.Assign)
+               and _self_attr(st.targets[0]) == a]
+        ok = False
+        if len(upd) == 1:
+            v = upd[0].value
+            ok = isinstance(v, ast.BinOp) and isinstance(v.op, ast.Mod) \
+                and isinstance(v.left, ast.BinOp) and type(
+                    v.left.op).__name__ == step and _self_attr(
+                    v.left.left) == a and unparse(v.left.right) == "1" \
+                and unparse(v.right) == "len(self.paths)" and cguards(
+                    ctx, rot, upd[0]) in ([("cmp", f"self.{a}", "IsNot",
+                                            "None")], [])
+        rep.ob("R5.10", f"self.{a} (a position in the per-path lists) moves "
+               "with the rotation", ok, fi=rot,
+               node=upd[0] if upd else rot.node,
+               detail=(unparse(upd[0])[:90] if upd else "not updated by "
+                       "rotate_path") + f"; the lists rotate {majority}")
+
     for a, why in sorted(per_path.items()):
         k = kinds.get(a)
         rep.ob("R5.10", f"self.{a} rotates with the paths", k == majority,
@@ -1018,3 +1050,31 @@ def r512(rep: Report, ctx: Ctx) -> None:
                        "walked node it was made from", ok, fi=f, node=c,
                        detail=f"event_name={unparse(src)}, parent_graph_node="
                               f"{unparse(a)}")
+
+
+# --------------------------------------------------------------------------
+def r513(rep: Report, ctx: Ctx) -> None:
+    """An event only appears in the linearised diagram if its node hangs in
+    the PUML graph below its predecessor."""
+    rep.rule("R5.13", "every event node the walk creates is connected from "
+             "its predecessor (direction predecessor -> new node)", 1)
+    fi = ctx.func("update_puml_graph_with_event_node")
+    cen = ctx.func("PUMLGraph.create_event_node")
+    reach = ctx.reach(fi)
+    mk = [c for c in ast.walk(fi.node) if isinstance(c, ast.Call)
+          and call_name(c) == "create_event_node"]
+    edges = [c for c in ast.walk(fi.node) if isinstance(c, ast.Call)
+             and call_name(c) == "add_puml_edge"]
+    ok = len(mk) == 1 and len(edges) == 1 and len(edges[0].args) == 2
+    if ok:
+        src = reach.resolve(edges[0].args[0], at=edges[0])
+        dst = reach.resolve(edges[0].args[1], at=edges[0])
+        prev_p = fi.params()[2]
+        cfg = ctx.cfg(fi)
+        from ..cfg import ENTRY as _E, EXIT as _X
+        ok = dst is mk[0] and isinstance(src, ast.Name) and src.id == prev_p \
+            and ctx.defs(fi).only_param(prev_p) and cfg.every_path_passes(
+                _E, _X, [cfg.container(edges[0])])
+    rep.ob("R5.13", "add_puml_edge(previous node, created node) on every "
+           "path", ok, fi=fi, node=edges[0] if edges else fi.node,
+           detail=unparse(edges[0])[:80] if edges else "<missing>")
